@@ -331,6 +331,7 @@ struct Env {
     threads: RefCell<Vec<Option<loom::thread::Thread>>>,
     /// initial Arc handles waiting for their owner thread: [arc][thread]
     arc_init: RefCell<Vec<Vec<Option<LArc>>>>,
+    aw: loom::future::AtomicWaker,
     /// handles returned by threads at their end: [arc]
     arc_returned: RefCell<Vec<Vec<LArc>>>,
 }
@@ -788,6 +789,29 @@ fn exec(cx: &mut Ctx, op: &Op, pc: usize) -> Option<u64> {
             rec(tid, k as usize, HK::Note, Some(NOTE_LAZY_SEEN + stamp * 16));
             None
         }
+        Op::BlockOn { a, v, o, reg_first } => {
+            let e2 = env.clone();
+            loom::future::block_on(std::future::poll_fn(move |cx| {
+                if reg_first {
+                    e2.aw.register_by_ref(cx.waker());
+                }
+                let x = e2.atomics[a as usize].load(o.to_std());
+                if x == v {
+                    std::task::Poll::Ready(())
+                } else {
+                    rec(tid, pc, HK::Spin, Some(x));
+                    if !reg_first {
+                        e2.aw.register_by_ref(cx.waker());
+                    }
+                    std::task::Poll::Pending
+                }
+            }));
+            None
+        }
+        Op::AwWake => {
+            env.aw.wake();
+            None
+        }
         Op::StopExploring => {
             loom::stop_exploring();
             None
@@ -851,6 +875,7 @@ fn model_body(p: StdArc<Program>) {
         cells: (0..p.n_cell).map(|_| loom::cell::UnsafeCell::new(0u64)).collect(),
         join: RefCell::new((0..nt).map(|_| None).collect()),
         threads: RefCell::new((0..nt).map(|_| None).collect()),
+        aw: loom::future::AtomicWaker::new(),
         arc_returned: RefCell::new((0..p.arcs.len()).map(|_| Vec::new()).collect()),
         arc_init: RefCell::new(arc_init),
         p: p.clone(),
